@@ -826,6 +826,9 @@ class World(object):
         """Edit a public class parameter of a function (e.g. f.L) between two solves."""
         f = self.get(op["f"])
         cur = getattr(f, op["attr"])
+        if "value" in op:
+            setattr(f, op["attr"], float(op["value"]))
+            return
         if isinstance(cur, list):
             setattr(f, op["attr"], [c * op["scale"] for c in cur])
         else:
